@@ -250,6 +250,26 @@ impl Samples for NewU {
         vec![NewU(0), NewU(12345)]
     }
 }
+/// An undocumented newtype around a *named* type: its definition is a bare reference, and the
+/// enum behind it reaches the document through this query parameter alone.
+#[derive(Serialize, Deserialize, JsonSchema, Clone, Debug)]
+#[serde(rename_all = "snake_case")]
+enum Tier {
+    Gold,
+    Silver,
+}
+impl TyDesc for Tier {
+    fn ty() -> Value {
+        json!({"enum": ["gold", "silver"]})
+    }
+}
+#[derive(Serialize, Deserialize, JsonSchema, Clone, Debug)]
+struct TierTag(Tier);
+impl TyDesc for TierTag {
+    fn ty() -> Value {
+        Tier::ty()
+    }
+}
 #[derive(Serialize, Deserialize, JsonSchema, Clone, Debug)]
 struct NewS(String);
 impl TyDesc for NewS {
@@ -554,6 +574,7 @@ param_struct!(PBool { flag: bool });
 param_struct!(QReq { a: u32, b: String, c: bool });
 param_struct!(QOpt { a: Option<u32>, b: Option<String>, m: Option<Mode> });
 param_struct!(QNew { id: NewU, s: NewS });
+param_struct!(QTier { t: TierTag, o: Option<TierTag> });
 param_struct!(QInts { a: i8, b: u64, c: i64, d: u16 });
 param_struct!(QUuid { id: Uuid, o: Option<Uuid> });
 param_struct!(QNz { n: NonZeroU32 });
@@ -733,6 +754,7 @@ ep_query!(q_rename, "/q/rename", Renamed);
 ep_query!(q_flat, "/q/flat", Flat);
 ep_query!(q_flatnum, "/q/flatnum", FlatNum);
 ep_query!(q_new, "/q/new", QNew);
+ep_query!(q_tier, "/q/tier", QTier);
 ep_query!(q_ints, "/q/ints", QInts);
 ep_query!(q_uuid, "/q/uuid", QUuid);
 ep_query!(q_nz, "/q/nz", QNz);
@@ -1077,6 +1099,7 @@ fn build_api() -> (ApiDescription<()>, Vec<Ep>) {
         v
     });
     reg_query!(q_new, "/q/new", QNew);
+    reg_query!(q_tier, "/q/tier", QTier);
     reg_query!(q_ints, "/q/ints", QInts);
     reg_query!(q_uuid, "/q/uuid", QUuid);
     reg_query!(q_nz, "/q/nz", QNz);
